@@ -51,7 +51,7 @@ def gen_layout(rng):
         own = [n for n in names if n not in declared and rng.random() < 0.7] if lv < nlev - 1 else [n for n in names if n not in declared]
         redecl = [n for n in declared if rng.random() < 0.3] if lv > 0 else []
         for n in own + redecl:
-            kind = rng.choice(["req", "req", "def", "fac", "opt0", "optstr", "optnone", "anydef"])
+            kind = rng.choice(["req", "req", "def", "fac", "opt0", "optstr", "optnone", "anydef", "optfac"])
             fields.append({"name": n, "kind": kind, "kw_only": rng.random() < 0.25, "init": True})
             if rng.random() < 0.25:
                 fields[-1]["alias"] = "A_" + n          # the key differs from the parameter name
@@ -77,12 +77,12 @@ def build(levels, idx, debug=False):
         def make_ns():
             ann, ns = {}, {}
             for f in lv["fields"]:
-                ann[f["name"]] = {"fac": typing.List[int], "opt0": typing.Optional[int], "optstr": typing.Optional[str], "optnone": typing.Optional[int], "anydef": typing.Any}.get(f["kind"], int)
+                ann[f["name"]] = {"fac": typing.List[int], "opt0": typing.Optional[int], "optstr": typing.Optional[str], "optnone": typing.Optional[int], "anydef": typing.Any, "optfac": typing.Optional[typing.List[int]]}.get(f["kind"], int)
                 kw = {}
                 if f["kind"] in ("def", "anydef"):
                     kw["default"] = 7
-                elif f["kind"] == "fac":
-                    kw["default_factory"] = list
+                elif f["kind"] in ("fac", "optfac"):
+                    kw["default_factory"] = list     # (optfac: a NULLABLE member whose default comes from a factory)
                 elif f["kind"] == "opt0":
                     kw["default"] = 0          # falsy, non-None default of a nullable field
                 elif f["kind"] == "optstr":
